@@ -63,7 +63,7 @@ def run(tier):
     # ---- the limits family
     prof_totals = dict(totals)
     deltas = [-70, -60, -50, -40, -30, -24, -20, -16, -14, -12, -10, -9, -8, -7, -6, -5, -4, -3, -2, -1, 0, 1, 2, 4] if quick else list(range(-72, 8))
-    fam = limits.jump_family(deltas) + limits.count_family() + limits.decl_limit_family() + limits.compound_after_constants()
+    fam = limits.jump_family(deltas) + limits.count_family() + limits.decl_limit_family() + limits.compound_after_constants() + limits.handler_sum_family()
     lp = [{"name": "limit:" + name, "steps": [("snip", src)], "mods": [("limmod", "var v = 5;\n")], "budget": 3000000} for name, src in fam]
     models = modelcheck.run_models(lp, chunk=4)
     cases = [mk_case("l%d" % i, p["steps"], opts, p["mods"]) for i, p in enumerate(lp)]
@@ -105,7 +105,7 @@ def run(tier):
     ck.coverage["limit_constructs_accepted"] = dict(sorted(accepted.items()))
     ck.coverage["limit_constructs_rejected"] = dict(sorted(rejected.items()))
     for construct in sorted(set(accepted) | set(rejected)):
-        if construct in ("limit:ctor-empty", "limit:last-local", "limit:compound-consts"):
+        if construct in ("limit:ctor-empty", "limit:last-local", "limit:compound-consts", "limit:handler-sum"):
             continue
         if construct not in accepted or construct not in rejected:
             ck.inconclusive.append("limit family %s never straddled its limit (accepted %d, rejected %d)" % (
